@@ -386,3 +386,53 @@ pub fn cancelling_block(j: usize, len: usize, cap: usize, infinite: bool, pre_ca
     std::mem::forget(g);
     std::mem::forget(tok2);
 }
+
+/// Minimal error-propagation instance: blocks without streams.  `before` blocks that end
+/// at once, then a block that fails on its k-th call (Pending before that).
+pub struct FailAt {
+    k: usize,
+    calls: usize,
+}
+impl BlockName for FailAt {
+    fn block_name(&self) -> &str {
+        "FailAt"
+    }
+}
+impl BlockEOF for FailAt {}
+impl Block for FailAt {
+    fn work(&mut self) -> Result<BlockRet<'_>> {
+        self.calls += 1;
+        CALLS_A.fetch_add(1, Ordering::SeqCst);
+        if self.calls == self.k {
+            return Err(rustradio::Error::msg(String::new()));
+        }
+        Ok(BlockRet::Pending)
+    }
+}
+pub struct EndsAtOnce {}
+impl BlockName for EndsAtOnce {
+    fn block_name(&self) -> &str {
+        "EndsAtOnce"
+    }
+}
+impl BlockEOF for EndsAtOnce {}
+impl Block for EndsAtOnce {
+    fn work(&mut self) -> Result<BlockRet<'_>> {
+        Ok(BlockRet::EOF)
+    }
+}
+pub fn failing_minimal(before: usize, k: usize) {
+    reset_counters();
+    let mut g = Graph::new();
+    for _ in 0..before {
+        g.add(Box::new(EndsAtOnce {}));
+    }
+    g.add(Box::new(FailAt { k, calls: 0 }));
+    let r = g.run();
+    let is_err = r.is_err();
+    std::mem::forget(r);
+    assert!(get(&CALLS_A, CB) == k, "run() kept calling (or never reached) the failing block");
+    assert!(is_err, "a block's work() failed but run() reported success");
+    witness!("run() returned");
+    std::mem::forget(g);
+}
